@@ -7,19 +7,19 @@ from .steps import STEPS, TOOLS, COOLANTS, tool_label
 
 PROPERTY_ID = "C02"
 FUNCTIONS = [
-    "every public state-tracked GCodeBuilder method (see vf/props/steps.py: 96 call shapes)",
+    "every public state-tracked GCodeBuilder method (see vf/props/steps.py: 99 call shapes)",
     "GState._set_spin_mode/_set_power_mode/_set_coolant_mode/_set_tool_number/_set_halt_mode",
     "GState._ensure_tool_is_inactive/_ensure_coolant_is_inactive",
     "GState._validate_tool_number/_validate_feed_rate/_validate_tool_power",
     "GCodeBuilder.write, GCodeCore.write, GCodeBuilder._get_statement, DefaultFormatter.*",
 ]
 BOUNDS = ("Inductive step for invariant I2 (state.is_tool_active / is_coolant_active equal the "
-          "reference machine's tool/coolant status). Cell grid: 96 call shapes (method x enum value "
+          "reference machine's tool/coolant status). Cell grid: 99 call shapes (method x enum value "
           "x which keyword parameters) x tool state {off, spin cw/ccw, power constant/dynamic} x "
           "coolant {off, mist, flood}. Solver over: numeric arguments (all reals, NaN, +-inf), "
           "integer arguments, current tool number (so 'same tool again' is included), tool-swap "
           "mode flag, tool power, and whether a halt is pending. Plus TRUE "
-          "histories from a freshly constructed builder (no private pre-state): every pair of 22 calls "
+          "histories from a freshly constructed builder (no private pre-state): every pair of 25 calls "
           "and every triple over a 10-call tool/coolant/halt alphabet, checked after every call.")
 ASSUMPTIONS = [
     "no bounds configured (bounds are C03/C06), no hooks, identity transform, position (1,2,3)",
